@@ -342,7 +342,7 @@ def analyze(run: Any) -> dict[str, list[str]]:  # noqa: C901
     # start()ed child that had not called started() goes to the start() caller if that caller was
     # still waiting, otherwise to the group
     for G, g in m.groups.items():
-        if not g.get("ended") or g.get("native_in_aexit"):
+        if not g.get("ended"):
             continue
         c = g["result"]
         L = g["scope"]
